@@ -21,3 +21,21 @@ package batch
 
 //@ func safeInvoke
 //@   ensures err == nil ==> len(result) == len(args)
+
+// Invoke: the caller that created the group runs Many at most once - and only after the group has left the pending
+// table, so that no later caller can append to the argument list Many was given - and closes doneCh on every path
+// (joiners only wait for it). A joiner never runs Many and never closes anything.
+//@ func Func.Invoke
+//@   requires f != nil
+//@   keeps batchContext, batchGroup, Func, map[funcShard]*batchGroup
+//@   ghost nmany int
+//@   ghost ndone int
+//@   entry ghost nmany = 0
+//@   entry ghost ndone = 0
+//@   call safeInvoke assert !((fs in bctx.pendingBatchGroups) && bctx.pendingBatchGroups[fs] == bg)
+//@   call safeInvoke assert arg2 == bg.args
+//@   call safeInvoke ghost nmany = nmany + 1
+//@   call close#2 assert arg0 == bg.doneCh
+//@   call close#2 ghost ndone = ndone + 1
+//@   ensures !existed ==> ndone == 1 && nmany <= 1
+//@   ensures existed ==> ndone == 0 && nmany == 0
